@@ -13,7 +13,7 @@ SimNext ==
     \/ /\ pending = "none" /\ ops < MaxOps
        /\ \E k \in (IF WithListeners THEN KindsNotify ELSE KindsStore) : pending' = k
        /\ UNCHANGED vars
-    \/ /\ pending = "publish" /\ pending' = "none" /\ \E k \in Keys, v \in Contents, ty \in Types \cup {""} : Publish(k, v, ty)
+    \/ /\ pending = "publish" /\ pending' = "none" /\ \E k \in Keys, v \in Contents, ty \in Types \cup {""}, e \in BOOLEAN : ((~e \/ (WithListeners /\ ty = "")) /\ Publish(k, v, ty, e))
     \/ /\ pending = "remove" /\ pending' = "none" /\ \E k \in Keys : Remove(k)
     \/ /\ pending = "import" /\ pending' = "none" /\ \E k \in Keys, v \in Contents : Import(k, v)
     \/ /\ pending = "listen" /\ pending' = "none" /\ \E l \in Lids, items \in ItemSets, dt \in {0, 1, 100, 100} : (l = Cardinality(usedL) + 1 /\ Listen(l, items, dt))
